@@ -6,6 +6,7 @@ f7_0:
   call f22_3
   call f25_1
   call f16_1
+  mov wvsv1(%rip),%rax
   ret
 .section .text.f7_1,"ax",@progbits
 .globl f7_1
@@ -13,4 +14,6 @@ f7_0:
 f7_1:
   ret
   call f13_0
+  mov wvsv1@GOTPCREL(%rip),%rax
+  mov wvsv1(%rip),%rax
   ret
